@@ -197,6 +197,31 @@ def run_case(case):
         got_lines = [ln for ln in got_lines if ln != 'pass']
         if got_lines != want_lines:
             out.append(('converter-output:%s' % cname, want_lines[:4], got_lines[:4], 'the evaluation body is not exactly what the converter returned'))
+    # 2a'. ... verbatim also means: with the blank lines and newlines the converter returned, and also for a symbol whose own code is empty
+    padded = lambda x: '\n# MARK<%s>\n%s\n\n' % (x.name, x.code)
+    if carriers:
+        text_p = fsic.build_model_definition(symbols, converter=padded)
+        for x in carriers:
+            want_chunk = textwrap.indent(padded(x), '        ')
+            if want_chunk not in text_p:
+                out.append(('converter-output:padded', want_chunk[:80], 'not found in the definition text', 'converter output with leading/trailing blank lines is not inserted as it is'))
+                break
+        victim = carriers[0]
+        edited = [x._replace(code='') if x is victim else x for x in symbols]
+        calls = []
+        try:
+            fsic.build_model_definition(edited, converter=lambda x: calls.append(x.name) or ('# from equation: %s' % x.equation))
+            if len(calls) != len(carriers):
+                out.append(('converter-count:empty-code', len(carriers), len(calls), 'a symbol that carries an equation (and an empty code string) must still be handed to the converter'))
+        except Exception as e:
+            out.append(('converter-output:empty-code:%s' % type(e).__name__, 'builds', repr(e)[:160], 'a symbol with an empty code string cannot be built with a custom converter'))
+    # 2a''. CODE belongs to the class it was built for: building another model afterwards does not change it
+    M_first = fsic.build_model(symbols)
+    code_first = M_first.CODE
+    fsic.build_model(fsic.parse_model('ZZ9 = ZZ9[-3] + QQ9'))
+    if M_first.CODE != code_first or M_first.CODE != fsic.build_model_definition(symbols) or getattr(fsic.BaseModel, 'CODE', None) is not None:
+        out.append(('CODE-attribute:after-another-build', 'unchanged, and none on BaseModel', [M_first.CODE == code_first, getattr(fsic.BaseModel, 'CODE', None) is None],
+                    'building another model changed the CODE of a class built earlier (or left CODE on BaseModel)'))
     # 2c. symbols without an equation contribute variables but no code: switch each equation off in turn (equation=None, the
     #     rest of the symbol - its code included - left as it was) and the converter is no longer called for it
     for k, victim in enumerate(carriers[:3]):
